@@ -107,6 +107,7 @@ type Machine struct {
 	concIdx     int
 	ufPoints    map[string][]ufPoint
 	inInit      int
+	decCache    map[*smt.Term][]*smt.Term
 	softLimit   int64
 	undo        []undoRec
 	mapSaved    map[*MapObj]bool
@@ -179,6 +180,7 @@ func (m *Machine) RunPath(entry *ssa.Function, prefix []int64, pushAlt func([]in
 		m.initDone = map[*ssa.Package]bool{}
 	}
 	m.mapSaved = map[*MapObj]bool{}
+	m.decCache = nil
 	m.oncePath = map[*Object]bool{}
 	m.nondets = nil
 	m.steps = 0
